@@ -181,7 +181,7 @@ func genC18(r *rand.Rand) c18Case {
 	cs := c18Case{Entry: vk.Pick(r, "roundtripper", "request"), Method: vk.Pick(r, "GET", "POST", "PUT"),
 		BodyKind: vk.Pick(r, "nil", "nobody", "buffer", "bytesreader", "stringsreader", "file", "plain", "empty", "trickle", "trickle-len"),
 		BodySize: vk.Pick(r, 0, 1, 4096, 1<<20), ReqCtx: vk.Pick(r, "background", "background", "todo", "cancel", "value", "deadline"),
-		ExecCtx: vk.Pick(r, "none", "none", "cancel", "value"), Stack: vk.Pick(r, "retry", "retry", "retry", "none", "timeout", "retry>timeout", "timeout>retry", "hedge", "retry>hedge", "breaker>retry", "fallback>retry", "retry>breaker", "retryb", "retryb", "timeout>retryb", "retryL", "retryP")}
+		ExecCtx: vk.Pick(r, "none", "none", "cancel", "value", "deadline"), Stack: vk.Pick(r, "retry", "retry", "retry", "none", "timeout", "retry>timeout", "timeout>retry", "hedge", "retry>hedge", "breaker>retry", "fallback>retry", "retry>breaker", "retryb", "retryb", "timeout>retryb", "retryL", "retryP")}
 	if cs.BodyKind == "nil" || cs.BodyKind == "nobody" || cs.BodyKind == "empty" {
 		cs.BodySize = 0
 	} else if cs.BodySize == 0 {
@@ -219,7 +219,7 @@ func retryable(st srvStep) bool {
 var c18Ids atomic.Int64
 
 func checkC18(rep *vk.Report) {
-	rep.Rule = "HTTP: calls through failsafehttp.NewRoundTripper and NewRequest against a loopback server that records every attempt (method, URI, header, body length+SHA-256, arrival time) and follows a per-call script (statuses 200/400/404/418/429/500/501/502/503/504, Retry-After absent/0/1, delayed, streamed, hijack-and-close); body kinds nil/NoBody/*bytes.Buffer/*bytes.Reader/*strings.Reader/file/plain reader/one-byte-per-Read stream with and without a declared ContentLength/empty x sizes 1B-1MiB; request context background/TODO/cancellable/values/deadline x executor context none/cancellable/values; stacks of retry (failsafehttp.RetryPolicyBuilder), timeout, hedge, breaker, fallback. Oracles: every attempt identical to the original request; attempt count = documented retry rule; gap >= Retry-After seconds on 429/503; returned response is the last attempt's and its body reads to EOF; the context seen by an instrumented inner RoundTripper carries the request context's values and deadline and is done once the caller cancels. A firing hedge with a large body checks overlapping attempts. Attempts ending in net/http's own per-attempt limits (Transport.ResponseHeaderTimeout, Client.Timeout with NewRequest) while the server holds the headers back are retried like any other error (lower bound on the attempts the server sees). gRPC: client and server interceptors driven with fake invoker/handler for all 17 status codes: arguments, reply, error, options passed through unchanged, metadata/values/deadline visible, retries only for Unavailable/DeadlineExceeded/ResourceExhausted. Non-trivial: >=2 attempts, a non-background context, or a body; distinct by (entry, body kind, size class, contexts, stack, script statuses)."
+	rep.Rule = "HTTP: calls through failsafehttp.NewRoundTripper and NewRequest against a loopback server that records every attempt (method, URI, header, body length+SHA-256, arrival time) and follows a per-call script (statuses 200/400/404/418/429/500/501/502/503/504, Retry-After absent/0/1, delayed, streamed, hijack-and-close); body kinds nil/NoBody/*bytes.Buffer/*bytes.Reader/*strings.Reader/file/plain reader/one-byte-per-Read stream with and without a declared ContentLength/empty x sizes 1B-1MiB; request context background/TODO/cancellable/values/deadline x executor context none/cancellable/values/deadline; stacks of retry (failsafehttp.RetryPolicyBuilder), timeout, hedge, breaker, fallback. Oracles: every attempt identical to the original request; attempt count = documented retry rule; gap >= Retry-After seconds on 429/503; returned response is the last attempt's and its body reads to EOF; the context seen by an instrumented inner RoundTripper carries the request context's values and deadline and is done once the caller cancels. A firing hedge with a large body checks overlapping attempts. Attempts ending in net/http's own per-attempt limits (Transport.ResponseHeaderTimeout, Client.Timeout with NewRequest) while the server holds the headers back are retried like any other error (lower bound on the attempts the server sees). gRPC: client and server interceptors driven with fake invoker/handler for all 17 status codes: arguments, reply, error, options passed through unchanged, metadata/values/deadline visible, retries only for Unavailable/DeadlineExceeded/ResourceExhausted. Non-trivial: >=2 attempts, a non-background context, or a body; distinct by (entry, body kind, size class, contexts, stack, script statuses)."
 	rep.Assumptions = []string{
 		"A9: Retry-After is only required to be honoured on 429 and 503, integer seconds",
 		"loopback networking works in the sandbox; TLS, x509 and redirect branches of the retry predicate are not driven",
@@ -380,6 +380,10 @@ func c18HTTP(rep *vk.Report, idx int, srv *c18Server) {
 		ex = ex.WithContext(ectx)
 	case "value":
 		ex = ex.WithContext(context.WithValue(context.Background(), c18CtxKey("exec"), "exec-value"))
+	case "deadline": // the executor's context has a (far) deadline, the request's may have none: the request's values must survive
+		ectx, c := context.WithTimeout(context.Background(), 60*time.Second)
+		defer c()
+		ex = ex.WithContext(ectx)
 	}
 	tr := &http.Transport{}
 	defer tr.CloseIdleConnections()
